@@ -63,6 +63,17 @@ PROPS = {
                 "multi-leaf trees).",
         "explanation": "theorem lazy_eq_eager by induction over operator trees for every consistent hint configuration; per-operator hint consistency; correspondence incl. serialiser fast path",
     },
+    "C06": {
+        "trusted_base": COMMON_TB,
+        "assumptions": COMMON_ASSUME + [
+            "the flush threshold is Vec::with_capacity(cap).capacity(), read back by the harness and sent to the model",
+            "RangeMocBuilder (from_maxdepth_ranges / from_cells) is modelled and tied by the correspondence; its order/capacity-independence theorem is not proved yet (partial)"],
+        "rule": "per (quantity,width): random cell multisets (incl. first/last cell of the depth) x 5 arrival orders (sorted, reversed, shuffled, duplicated+shuffled, adjacent duplicates) "
+                "x 8 buffer capacities (1,2,3,5,8,len,len+1,default) x {push, push_v2}; append to an existing MOC; unaligned overlapping/touching/nested max-depth ranges and mixed-depth "
+                "cells x orders x capacities; n-ary or/and/xor (owned and iterator variants) for every list length 0..18 against the model's kway AND against the left fold. "
+                "distinct_nontrivial = distinct op lines with more than one element.",
+        "explanation": "theorems: fixed-depth builder = normalize(union of cells) for every sequence and capacity; kway = left fold for every list length via associativity from Canon.ext",
+    },
 }
 
 
